@@ -36,6 +36,9 @@ func C19(p *load.Prog, r *report.Report) {
 		r.Undecided("C19.anchor", "(*Element).Multiply", "", "method not found")
 		return
 	}
+	// the exemption of the IsOne shortcut rests on IsOne being true for the scalar 1 only: C13's whole-value equality
+	// obligations (Equal / IsZero / IsOne) are part of this property's argument
+	inherit(p, r, "C19", "C13", C13, "C13.equality", "C13.model", "C13.anchor")
 	origins := map[*ssa.Function]string{}
 	for _, f := range p.ExportedAPI() {
 		if recv := f.Signature.Recv(); recv != nil && strings.HasSuffix(recv.Type().String(), ".Scalar") {
